@@ -21,6 +21,23 @@ import (
 	"github.com/ulikunitz/xz/lzma"
 )
 
+// canonPanics maps the runtime's panic texts (which carry the offending numbers) and the translation's to one form
+func canonPanics(out string) string {
+	parts := strings.Split(out, "|")
+	for i, p := range parts {
+		if !strings.HasPrefix(p, "panic:") {
+			continue
+		}
+		switch {
+		case strings.Contains(p, "slice bounds out of range"):
+			parts[i] = "panic:slice-bounds"
+		case strings.Contains(p, "index out of range"):
+			parts[i] = "panic:index"
+		}
+	}
+	return strings.Join(parts, "|")
+}
+
 func xlateEncScript(rng *rand.Rand, n int) []string {
 	var s []string
 	mode := rng.Intn(4)
@@ -153,7 +170,22 @@ func xlateTie(r *Result, mainPool *DriverPool, rng *rand.Rand, n int) error {
 		var encs, decs []string
 		k := 1 + rng.Intn(60)
 		for j := 0; j < k; j++ {
-			switch rng.Intn(6) {
+			switch rng.Intn(8) {
+			case 6, 7:
+				// literal codec (lc = 2, lp = 0: four literal states); matched literals equal to / sharing a prefix with the match byte
+				sym, st, ls := rng.Intn(256), rng.Intn(12), rng.Intn(4)
+				mb := rng.Intn(256)
+				switch rng.Intn(3) {
+				case 0:
+					mb = sym
+				case 1:
+					mb = sym ^ (1 << uint(rng.Intn(8)))
+				}
+				if rng.Intn(40) == 0 {
+					ls = 4 + rng.Intn(3) // outside the slice: Go's slice-bounds panic
+				}
+				encs = append(encs, fmt.Sprintf("Le,%d,%d,%d,%d", sym, st, mb, ls))
+				decs = append(decs, fmt.Sprintf("Ld,%d,%d,%d", st, mb, ls))
 			case 0:
 				slot := rng.Intn(4)
 				encs = append(encs, fmt.Sprintf("te,%d,%d", slot, rng.Uint32()>>uint(rng.Intn(32))))
@@ -212,6 +244,10 @@ func xlateTie(r *Result, mainPool *DriverPool, rng *rand.Rand, n int) error {
 			return err
 		}
 		r.Count("xlate-codec/"+req, true)
+		goOut, leanOut = canonPanics(goOut), canonPanics(leanOut)
+		if strings.Contains(goOut, "panic:") {
+			r.Inc("xlate_codec_panic_hit")
+		}
 		if goOut != leanOut {
 			mism("codecs", req, goOut, leanOut)
 		}
